@@ -203,7 +203,7 @@ pub struct ReaderStats {
     pub loadable: usize,
     pub imperative: usize,
     pub pointers: usize,
-    /// client pointers selected with arguments
+    /// client pointers selected with arguments, or whose own reader uses variables
     pub pointers_with_arguments: usize,
     /// client fields selected without an argument for a variable their reader uses
     pub resolvers_omitting_a_variable: usize,
@@ -285,7 +285,9 @@ pub fn reader_stats(ast: &Value) -> ReaderStats {
                 Some("Linked") => {
                     if n["refetchQueryIndex"].is_number() {
                         s.pointers += 1;
-                        if n["arguments"].is_array() {
+                        let mut used = vec![];
+                        variables_used(&n["condition"]["readerAst"], &mut used, false);
+                        if n["arguments"].is_array() || !used.is_empty() {
                             s.pointers_with_arguments += 1;
                         }
                     }
